@@ -220,8 +220,8 @@ GOOGLE_SECTION = {"param": "Args", "arg": "Arguments", "keyword": "Keyword Args"
                   "see": "See", "seealso": "See Also"}
 NUMPY_SECTION = {"param": "Parameters", "arg": "Arguments", "keyword": "Keyword Arguments", "return": "Return",
                  "returns": "Returns", "yield": "Yield", "yields": "Yields", "raise": "Raise", "raises": "Raises",
-                 "except": "Except", "warn": "Warn", "warns": "Warns", "ivar": "Attributes", "note": "Note",
-                 "see": "See", "seealso": "See Also"}
+                 "except": "Except", "warn": "Warn", "warns": "Warns", "ivar": "Attributes", "note": "Note"}
+# (a numpy "See Also" section is a list of references, not free text: not a way to write a see field)
 FREEFORM = {"return", "returns", "yield", "yields", "note", "see", "seealso"}
 
 
@@ -528,31 +528,42 @@ def judge(rec: Dict[str, Any], fmt: str, docstring: str, r: Dict[str, Any]) -> L
         for row in o["rows"]:
             shown += row["words"]
     expected_shown: List[str] = []
+    reported: List[Dict[str, Any]] = []
     for f in rec["fields"]:
         fw = [word(i) for i in f["words"]]
         fpre = [norm_block(verb_text(v)) for v in f["verb"]]
         kind, arg, entry = f["kind"], f["arg"], f["entry"]
         ok = False
+        words_ok = False
         if f["where"] == "attribute":
             o = attr_obs.get(arg)
             ok = o is not None and o["body"] == fw and o["pre"] == fpre
+            words_ok = o is not None and o["body"] == fw
         else:
             labels = LABELS.get(entry, (f"Unknown Field: {kind}",))
             for row in ob["rows"]:
                 # a field without argument has no name cell of its own (a type may be shown there)
-                if row["label"] in labels and (not arg or row["arg"] == arg) and contiguous(fw, row["words"]) \
-                        and contiguous(fpre, row["pre"]):
-                    ok = True
+                if row["label"] in labels and (not arg or row["arg"] == arg) and contiguous(fw, row["words"]):
+                    words_ok = True
+                    if contiguous(fpre, row["pre"]):
+                        ok = True
             if fmt in ("google", "numpy") and kind in ADMONITION:      # these styles present notes as admonitions
                 for a in ob["adm"]:
-                    if ADMONITION[kind] in a["cls"].split() and a["words"] == fw and a["pre"] == fpre:
-                        ok = True
+                    if ADMONITION[kind] in a["cls"].split() and a["words"] == fw:
+                        words_ok = True
+                        if a["pre"] == fpre:
+                            ok = True
         if ok:
             expected_shown += fw
             continue
-        # not under its entry: then a warning must name it
+        # not (or not faithfully) under its entry: then it must have been reported.  A warning that names the field
+        # (its tag or argument) reports it; if every word of the field is still shown under its entry and only the
+        # presentation of a block differs, a reported parse problem of this docstring counts as the report.
         named = [m for m in log if re.search(rf"\b{re.escape(kind)}\b", m) or (arg and re.search(rf"\b{re.escape(arg)}\b", m))]
-        if named:
+        if named or (words_ok and any("bad docstring" in m for m in log)):
+            if words_ok:
+                expected_shown += fw
+            reported.append({"kind": kind, "arg": arg, "by": (named or log)[0]})
             continue
         bad.append({"invariant": "FieldShownOrReported", "field": {"kind": kind, "arg": arg, "entry": entry,
                                                                   "where": f["where"]},
